@@ -191,6 +191,9 @@ func (r *Runner) RandomContent(n int) (submitted int) {
 		case x < 7: // Qi spend
 			k := e.Qi[r.R.Intn(len(e.Qi))]
 			sp, err := e.Spendable(k)
+			if r.Verbose {
+				fmt.Println("DBG spendable", len(sp), err, "height", e.Height())
+			}
 			if err != nil || len(sp) == 0 {
 				continue
 			}
@@ -343,6 +346,9 @@ func (r *Runner) MineOn(parent int, wantOrder int) (int, error) {
 	}
 	before := r.Prev
 	n := r.E.Net
+	if err := n.Refill(); err != nil {
+		return -1, fmt.Errorf("refill pending header: %w", err)
+	}
 	ph, err := n.Pending()
 	if err != nil {
 		return -1, err
@@ -452,6 +458,16 @@ func (r *Runner) MineOn(parent int, wantOrder int) (int, error) {
 	ev["cr"] = r.abstractSet(cr)
 	ev["tm"] = r.abstractSet(tm)
 	ev["ntx"] = len(zb.Transactions())
+	netx, nconv := 0, 0
+	for _, etx := range zb.Body().ExternalTransactions() {
+		netx++
+		if types.IsConversionTx(etx) {
+			nconv++
+		}
+	}
+	ev["inbound_etx"] = netx
+	ev["inbound_conv"] = nconv
+	ev["outbound_etx"] = len(zb.OutboundEtxs())
 	r.Events = append(r.Events, ev)
 	r.Prev = after
 	if r.Mined == nil {
@@ -568,4 +584,44 @@ func (r *Runner) dbgAddrs(tag string, blk *types.WorkObject) {
 			return
 		}
 	}
+}
+
+
+// WarmUp brings the chain to a state with spendable Qi outputs for every key: genesis allocations are
+// credited in block 1, a prime block activates the exchange controller, Quai->Qi conversions are
+// confirmed by the next prime block, executed in the following zone block and unlock a few blocks later.
+func (r *Runner) WarmUp() (int, error) {
+	head := 0
+	var err error
+	step := func(order int) {
+		if err == nil {
+			head, err = r.MineOn(head, order)
+		}
+	}
+	step(-1)
+	step(mininet.Prime)
+	if err != nil {
+		return head, err
+	}
+	if err = r.Fund(40); err != nil {
+		return head, err
+	}
+	step(-1)
+	step(mininet.Prime)
+	for i := 0; i < 40 && err == nil; i++ {
+		step(-1)
+		ready := true
+		for _, k := range r.E.Qi {
+			if sp, _ := r.E.Spendable(k); len(sp) == 0 {
+				ready = false
+			}
+		}
+		if ready && i >= 3 {
+			return head, err
+		}
+	}
+	if err != nil {
+		return head, err
+	}
+	return head, fmt.Errorf("warm-up: not every key has spendable Qi outputs at height %d", r.E.Height())
 }
